@@ -9,6 +9,7 @@ import (
 	"reduction.dev/reduction/dkv"
 	"reduction.dev/reduction/dkv/recovery"
 	"reduction.dev/reduction/dkv/storage"
+	"reduction.dev/reduction/proto/jobpb"
 	"reduction.dev/reduction/proto/snapshotpb"
 	verif "reduction.dev/reduction/zz_verif"
 )
@@ -177,17 +178,79 @@ func Harness_C14_Artifact() {
 	verif.Reached()
 }
 
-// Harness_C14_Fold: a savepoint requested while a checkpoint is in progress folds into it.
+// Harness_C14_Fold: a savepoint requested while a checkpoint is in progress - before any
+// acknowledgement, after the operator's or after the source runner's - folds into it: no second
+// checkpoint is started, a second savepoint request is refused, the acknowledgements already
+// received count, the checkpoint completes with the remaining ones, the savepoint artifact is
+// written and restores, and the next periodic checkpoint can start.
 func Harness_C14_Fold() {
+	verif.FixedRand(3, 1, 4, 1, 5, 9, 2, 6)
+	verif.Abstract("bloom.Filter")
+	mem := storage.NewMemoryFilesystem()
 	loc := &verifLoc{}
-	store := verifNewStore(loc, make(chan []uint64, 4))
+	db := dkv.Open(dkv.DBOptions{FileSystem: mem.WithWorkingDir("w/o1"), MemTableSize: 20, TargetFileSize: 64, L0TableNumCompactionTrigger: 2}, nil)
+	val := verif.Bytes("v", 1)
+	db.Put(verifSPKeys[0], val)
+	store := NewStore(&NewStoreParams{FileStore: loc, CheckpointsPath: "checkpoints", SavepointsPath: "savepoints", RetainedCheckpointsUpdated: make(chan []uint64, 4), ErrChan: make(chan error, 4)})
+	store.RegisterSourceSplitter(&verifSplitter{state: []byte("splitter")})
 	id, err := store.CreateCheckpoint([]string{"o1"}, []string{"r1"})
 	verif.Assert(err == nil, "create")
+	h, err := db.Checkpoint(id)()
+	verif.Assert(err == nil, "dkv-checkpoint-succeeds")
+	verifExport(mem, loc)
+	ackOp := func() {
+		verif.Assert(store.AddOperatorSnapshot(&snapshotpb.OperatorCheckpoint{CheckpointId: id, OperatorId: "o1", DkvFileUri: h.URI}) == nil, "operator-ack-accepted")
+	}
+	ackRunner := func() {
+		verif.Assert(store.AddSourceSnapshot(&jobpb.SourceRunnerCheckpointCompleteRequest{CheckpointId: id, SourceRunnerId: "r1", SplitStates: [][]byte{{7}}}) == nil, "runner-ack-accepted")
+	}
+	when := verif.Choose("savepoint-requested", 3) // 0 before any ack, 1 after the operator's, 2 after the source runner's
+	if when == 1 {
+		ackOp()
+	}
+	if when == 2 {
+		ackRunner()
+	}
 	sid, created, err := store.CreateSavepoint([]string{"o1"}, []string{"r1"})
 	verif.Assert(err == nil && !created && sid == id, "savepoint-folds-into-checkpoint-in-progress")
 	_, _, err = store.CreateSavepoint([]string{"o1"}, []string{"r1"})
 	verif.Assert(err != nil, "second-savepoint-request-rejected")
 	_, err = store.CreateCheckpoint([]string{"o1"}, []string{"r1"})
 	verif.Assert(err == ErrCheckpointInProgress, "no-second-checkpoint-started")
+	if when != 1 {
+		ackOp()
+	}
+	if when != 2 {
+		ackRunner()
+	}
+	verif.Quiesce()
+	cur := store.CurrentCheckpoint()
+	verif.Assert(cur != nil && cur.Id == id, "folded-checkpoint-completes-with-the-acknowledgements-given")
+	spURI := ""
+	for _, p := range loc.paths {
+		if strings.HasPrefix(p, "savepoints/") && strings.HasSuffix(p, "/job.savepoint") {
+			spURI = p
+		}
+	}
+	verif.Assert(spURI != "", "savepoint-artifact-written")
+	// the running job is not disturbed: the next periodic checkpoint starts
+	nid, err := store.CreateCheckpoint([]string{"o1"}, []string{"r1"})
+	verif.Assert(err == nil && nid > id, "next-checkpoint-starts-after-the-savepoint")
+	if spURI != "" {
+		var doomed []string
+		for _, p := range loc.paths {
+			if !strings.HasPrefix(p, "savepoints/") {
+				doomed = append(doomed, p)
+			}
+		}
+		loc.Remove(doomed...)
+		restored := NewStore(&NewStoreParams{SavepointURI: spURI, FileStore: loc, CheckpointsPath: "checkpoints", SavepointsPath: "savepoints"})
+		verif.Assert(restored.LoadCheckpoint() == nil, "load-from-savepoint-succeeds")
+		rc := restored.CurrentCheckpoint()
+		verif.Assert(rc != nil && rc.Id == id && len(rc.OperatorCheckpoints) == 1, "savepoint-restores-the-folded-checkpoint")
+		db2 := dkv.Open(dkv.DBOptions{FileSystem: verifImport(loc).WithWorkingDir("w/o1"), MemTableSize: 20, TargetFileSize: 64, L0TableNumCompactionTrigger: 2}, []recovery.CheckpointHandle{h})
+		e, err := db2.Get(verifSPKeys[0])
+		verif.Assert(err == nil && bytes.Equal(e.Value(), val), "operator-state-restored")
+	}
 	verif.Reached()
 }
